@@ -17,6 +17,7 @@ def main():
     import common, signal
     budget = int(os.environ.get('VERIF_BUDGET_S', '1500' if common.tier() == 'quick' else '14400'))
     def on_alarm(sig, frm):
+        import faulthandler; faulthandler.dump_traceback(file=sys.stderr)
         print(f'MACHINERY: {pid} exceeded its wall-clock budget of {budget}s (inconclusive, never a pass)')
         print(f'[vcheck] {pid} tier={common.tier()} exit=2'); sys.stdout.flush()
         os._exit(2)
